@@ -88,7 +88,9 @@ CmpVerdict(e) ==
       fin == same /\ RIsReal(a.mu) /\ RIsReal(a.sigma) /\ RIsReal(b.mu) /\ RIsReal(b.sigma)
       isBool(x) == e.out.kind = "ok" /\ e.out.value.t = "bool" /\ e.out.value.v = (IF x THEN "1" ELSE "0")
       pure == (IF e.a_after # a \/ e.b_after # b THEN {"C18.comparison_modified_operand"} ELSE {})
-  IN  IF ~IsRating(a) THEN {}
+      \* an operand whose own __eq__ claims equality with everything: the reflected comparison is Python's, not the library's
+      permissive == b.t = "obj" /\ b.v = "Permissive"
+  IN  IF ~IsRating(a) \/ permissive THEN {}
       ELSE pure \cup
        (IF same
          THEN IF ~fin THEN {}
